@@ -1272,8 +1272,9 @@ fn render(rng: &mut Rng, toks: &[Tok], l: &Layout) -> Rendered {
         let mut need_newline = false; // a line comment was written: the token must start on a new line
         let mut had_comment = false;
         // comments
+        // CANDIDATE-FINDING C01-5e: a comment between /begin and A2ML makes the tokenizer reject the file: not generated
         let a2ml_tag = t.glue && matches!(&t.tk, Tk::Word(w) if w == "A2ML");
-        let inner_begin = !t.elem && t.tk == Tk::Begin;
+        // C01-5d / C18-F5 (comment in front of a /begin inside IF_DATA): repaired in /repo 182b4fe: generated and checked again
         // inside IF_DATA: from the token behind "/begin IF_DATA" up to and including the "/end" of "/end IF_DATA"
         if i > 1 && toks[i - 2].tk == Tk::Begin && matches!(&toks[i - 1].tk, Tk::Word(w) if w == "IF_DATA") {
             in_ifdata = true;
@@ -1282,7 +1283,7 @@ fn render(rng: &mut Rng, toks: &[Tok], l: &Layout) -> Rendered {
         if t.tk == Tk::End && matches!(toks.get(i + 1).map(|x| &x.tk), Some(Tk::Word(w)) if w == "IF_DATA") {
             in_ifdata = false;
         }
-        if !is_raw && !prev_raw && !a2ml_tag && !inner_begin && !(after_ifdata_tag && !l.comment_after_ifdata) {
+        if !is_raw && !prev_raw && !a2ml_tag && !(after_ifdata_tag && !l.comment_after_ifdata) {
             let n = if t.elem && rng.chance(l.kept_comments) {
                 1 + rng.below(2)
             } else if !t.elem && rng.chance(l.dropped_comments) {
@@ -2009,14 +2010,16 @@ fn object_span(mt: &[MTok], tag: &str, name: &str) -> Option<(usize, usize)> {
 
 fn check_edit(edit: Edit, r: &EditResult) -> Result<(), (String, String)> {
     let a = mini_tokenize(&r.before).map_err(|e| ("tokenizable".to_string(), e))?;
-    // CANDIDATE-FINDING C05-2: the object is removed, a line comment stands directly in front of it and the next element
-    // or comment stood on the line of its /end: that follower is written behind the line comment on the same line and
-    // becomes part of the comment (tokens are lost, the text may not even load). Exactly this situation is skipped.
+    // C05-2 (object behind a `//` comment removed, following element/comment written into the comment): repaired in /repo 6bcb276: generated and checked again
+    // CANDIDATE-FINDING C05-2b (residual of C05-2, not repaired by 6bcb276): the removed object is the LAST child of its
+    // block, a line comment stands directly in front of it and the "/end" of the enclosing block stood on the line of the
+    // object's /end: "/end PARENT" is written behind the line comment on the same line and becomes part of the comment
+    // (the written text does not load). Exactly this situation is skipped.
     if edit == Edit::Remove {
         if let Some((s, e)) = object_span(&a, r.tag, &r.target) {
             if s > 0 && e + 1 < a.len() {
                 let line_comment_before = matches!(&a[s - 1].t, MT::Comment(c) if c.starts_with("//"));
-                if line_comment_before && a[e + 1].line == a[e].line {
+                if line_comment_before && a[e + 1].line == a[e].line && a[e + 1].t == MT::End {
                     return Ok(());
                 }
             }
